@@ -12,3 +12,4 @@ register_simp_attr rs_tracker
 register_simp_attr rs_actiondata
 register_simp_attr rs_modifiers
 register_simp_attr rs_refs
+register_simp_attr rs_merge
